@@ -52,6 +52,16 @@ HOSTILE = [
     "(string) @s ; \"unbalanced { quote\n{ let u = @s }",
     "(string) @s ; \\\" {\n{ let u = @s }",
     "((identifier) @i (#eq? @i \"a\\\"b\")) ; } \" {\n{ let u = @i }",
+    "(module) @m { let @m.x = @m.y\n let @m.y = @m.x }",
+    "(module) @m { let @m.x = [@m.x] }",
+    "(module) @m { let @m.x = (plus 1 @m.y)\n let @m.y = (plus @m.x 1)\n node n\n attr (n) v = @m.x }",
+    "(module) @m { let a = @m.c\n let @m.c = { a } }",
+    "[(module) {\n",
+    "[(module) (identifier)\n{ node n }\n",
+    "(module) @m {\r\n  node @\r\n}\r\n",
+    "(module) @m {\r\n  let x = #\r\n}\r\n",
+    "inherit .\r\n(module) @_m { }\r\n",
+    "(module) @_m {\r\n  attr (n) a = 1\r\n}\r\n",
     "global x y z",
     "global x* = \"d\"\n(module) @_m { for y in x { print y } }",
     "inherit",
